@@ -202,6 +202,15 @@ def src_hashes(funcs):
     return h
 
 
+def library_blocks_total():
+    """number of basic blocks of package ecs (non-test, harness overlay excluded) in the current tree"""
+    try:
+        out = subprocess.run([GOSYM, "blocks", "-repo", REPO, "-harness-dir", HARNESS_DIR, "-tags", "verif"], env=GOENV, capture_output=True, text=True, timeout=300).stdout
+        return len([l for l in out.splitlines() if "#" in l])
+    except Exception:
+        return -1
+
+
 def confirms(v, nat):
     """does the native run reproduce engine violation v?"""
     if nat.get("assume_failed"):
@@ -255,6 +264,7 @@ def main():
     total = {"queries_unsat": 0, "queries_sat": 0, "paths": 0, "queries": 0, "obligations": 0, "discharged": 0, "trivial": 0, "sat": 0, "unknown": 0,
              "solver_s": 0.0, "steps": 0, "merged_regions": 0}
     funcs, externals, reached, labels, per_h = set(), set(), {}, {}, {}
+    blocks = set()
     inconclusive, errors, samples = [], [], []
     violations, witnesses = [], []
     harness_all = []
@@ -275,6 +285,7 @@ def main():
         for k in total:
             total[k] += summ.get(k, 0) or 0
         funcs.update(summ.get("funcs") or [])
+        blocks.update(summ.get("blocks") or [])
         externals.update(summ.get("externals") or [])
         for k, v in (summ.get("reached") or {}).items():
             reached[tags + ":" + k] = reached.get(tags + ":" + k, 0) + v
@@ -421,6 +432,8 @@ def main():
         "functions_encoded": sorted(f for f in funcs if not f.startswith("github.com/mlange-42/ark/ecs.Verif") and ".v" not in f.split("/")[-1][:6]),
         "externals_executed_from_ssa": sorted(externals),
         "source_hashes": src_hashes(funcs),
+        "library_basic_blocks_executed": len(blocks),
+        "library_basic_blocks_total": library_blocks_total(),
         "bounds": conf.get("bounds_" + tier, conf.get("bounds", "")),
         "outside_claim": conf.get("outside", ""),
         "stubs": propconf.STUBS,
@@ -439,6 +452,10 @@ def main():
           "wall_s": round(wall, 2), "violations": len(seen_sig)}
     with open(evidence_path, "w") as f:
         json.dump(ev, f, indent=1)
+    if REPO == "/repo":  # block coverage of this check (union over harnesses and tag sets), input of tools/coverage.py
+        os.makedirs(os.path.join(VERIF, "evidence", "coverage"), exist_ok=True)
+        with open(os.path.join(VERIF, "evidence", "coverage", "%s.%s.txt" % (pid, tier)), "w") as f:
+            f.write("\n".join(sorted(blocks)) + "\n")
 
     for l in out_lines:
         log(l)
